@@ -297,9 +297,58 @@ def gen_ack(rng, cid, mode='step'):
 # ------------------------------------------------------------------------------------------------
 # resources (C06): processes follow request / hold / release patterns; each process uses one resource
 
+def gen_nested(rng, cid, mode='step'):
+    """processes that hold slots of TWO resources in nested with-blocks (`with a.request() as x: yield x; with b.request() as y:
+    yield y; work`), at least one of them a PreemptiveResource, with the handler of an Interrupt OUTSIDE both blocks: a
+    preemption on one resource (or any other exception arriving at a yield inside) unwinds both blocks, innermost first - the
+    `exit` instructions run with the exception in flight - and BOTH slots are passed on within that instant.  Around them:
+    preemptors of the preemptive resource(s) and plain customers of each resource who get (or wait for) the slots given back"""
+    c = Case(cid, mode)
+    shape = rng.choice(['pre-outer', 'pre-outer', 'pre-inner', 'pre-inner', 'both'])
+    other = lambda: rng.choice(['resource', 'resource', 'priority', 'preemptive'])
+    kinds = {'pre-outer': ['preemptive', other()], 'pre-inner': [other(), 'preemptive'], 'both': ['preemptive', 'preemptive']}[shape]
+    caps = [rng.choice([1, 1, 1, 2]), rng.choice([1, 1, 2])]
+    c.res = [(kinds[0], caps[0], 0), (kinds[1], caps[1], 0)]
+    slot = 0
+    def add(prog):
+        c.progs.append(prog); c.mains.append((len(c.progs) - 1, len(c.progs)))
+    for i in range(rng.randint(1, 3)):           # the nesting processes: resource 0 outside, resource 1 inside
+        prog = []
+        if i or rng.random() < 0.4:
+            prog += [('timeout', slot, rng.choice([0, 0.5, 1, 1, 2]), None), ('yield', slot, 0)]
+        slot += 1
+        a, b, ts = slot, slot + 1, slot + 2
+        slot += 3
+        work = [('timeout', ts, rng.choice([3, 5, 10, 10]), None), ('yield', ts, 10)]
+        if rng.random() < 0.3:
+            work = [('timeout', ts, rng.choice([1, 2]), None), ('yield', ts, 12 + 0), ('timeout', ts, rng.choice([2, 5]), None), ('yield', ts, 10)]
+        inner = [('request', b, 1, rng.choice([1, 2, 3, 3]), rng.random() < 0.3), ('yield', b, 10 + len(work))] + work + [('exit', b, 1)]
+        prog += [('request', a, 0, rng.choice([1, 2, 3, 3]), rng.random() < 0.3), ('yield', a, 10 + len(inner))] + inner + [('exit', a, 0)]
+        if rng.random() < 0.5:
+            prog += [('log', 40 + i)]
+        if rng.random() < 0.4:
+            prog += [('timeout', ts, rng.choice([0, 1]), None), ('yield', ts, 0), ('log', 45 + i)]
+        add(prog)
+    for r in (0, 1):                               # preemptors (better priority, preempting) and plain customers of each resource
+        for j in range(rng.randint(1, 2) if kinds[r] == 'preemptive' else rng.randint(0, 2)):
+            pre = kinds[r] == 'preemptive' and rng.random() < 0.8
+            add([('timeout', slot, rng.choice([1, 2, 2, 3, 4]), None), ('yield', slot, 0),
+                 ('request', slot + 1, r, rng.choice([0, 0, 1]) if pre else rng.choice([0, 2, 4]), pre), ('yield', slot + 1, 12),
+                 ('timeout', slot + 2, rng.choice([1, 1, 2, 6]), None), ('yield', slot + 2, 10), ('exit', slot + 1, r), ('log', 50 + 2 * r + j)])
+            slot += 3
+    if rng.random() < 0.5:
+        first, rest = c.mains[:1], c.mains[1:]
+        rng.shuffle(rest)
+        c.mains = first + rest
+    return c
+
+
 def gen_resource(rng, cid, mode='step'):
-    if rng.random() < 0.12:
+    x = rng.random()
+    if x < 0.12:
         return gen_preempt_queue(rng, cid, mode)
+    if x < 0.27:
+        return gen_nested(rng, cid, mode)
     c = Case(cid, mode)
     nres = rng.choice([1, 1, 2])
     for _ in range(nres):
